@@ -182,12 +182,14 @@ namespace mtbb {
   template<typename Index, typename Func>
     Func parallel_for(Index first, Index last, Index step,
                       const Func& f) {
+    if (!(first < last)) return f; /* empty range: parallel_for_aux needs b - a >= 1 */
     return parallel_for_aux(first, Index(0), (last - first + step - 1) / step, step, f);
   }
 
   template<typename Index, typename Func>
     Func parallel_for(Index first, Index last,
                       const Func& f) {
+    if (!(first < last)) return f; /* empty range: parallel_for_aux needs b - a >= 1 */
     return parallel_for_aux(first, Index(0), (last - first), Index(1), f);
   }
 
